@@ -623,7 +623,13 @@ CHECKS = {
     ),
 }
 
+# maintenance through one handle after changes through another one is a history of public operations too (C02)
+CHECKS['C02']['cells'] = CHECKS['C02']['cells'] + [c for c in CHECKS['C08']['cells'] if c['name'] == 'handles_clean']
+# index and packs stay mutually consistent at every intermediate instant of the operations that append to packs or rewrite them (C03)
+CHECKS['C03']['cells'] = CHECKS['C03']['cells'] + [c for c in CHECKS['C05']['cells'] if c['name'].startswith(('q_kill_direct_nofsync', 'q_kill_pack_nofsync', 'q_kill_repack', 'q_kill_import')) and not c.get('thorough_only')]
 # the streams of objects served through the re-loosened cache / the second-chance look-up are storage forms of C07 too
 CHECKS['C07']['cells'] = CHECKS['C07']['cells'] + [c for c in CHECKS['C04']['cells'] if c['name'].startswith(('seeker_p', 'seeker2'))]
 # seeking / chunked readers of compressed objects are part of "what is read back" (C10)
 CHECKS['C10']['cells'] = CHECKS['C10']['cells'] + [c for c in CHECKS['C07']['cells'] if c['name'] in ('zseek_zero', 'zseek_back', 'zread_small')]
+# size / stored length / compressed flag reported by the bulk metadata and content calls under both look-up strategies
+CHECKS['C10']['cells'] = CHECKS['C10']['cells'] + [c for c in CHECKS['C16']['cells'] if c['name'] in ('bulk_check_v1', 'bulk_check_v2', 'bulk_check_v3')]
